@@ -151,6 +151,11 @@ impl Obs {
     }
 }
 
+const EMBED_PREFIX: &str = "§a(";
+thread_local! {
+    static EMBED: RefCell<String> = RefCell::new(String::with_capacity(64 * 1024));
+}
+
 pub const MODE_PLAIN: u8 = 0;
 pub const MODE_INDENTED: u8 = 1;
 pub const MODE_REC: u8 = 2;
@@ -161,7 +166,27 @@ pub fn observe(parse: fn(&str, u8, u64) -> Raw, input: &str, mode: u8, salt: u64
     CTX_CALLS.with(|c| c.borrow_mut().clear());
     FUEL.with(|f| f.set(0));
     INPUT_LEN.with(|l| l.set(input.len()));
-    let r = verif_core::util::catch(|| parse(input, mode, salt));
+    // the plain mode parses a slice from the MIDDLE of a larger, reused buffer: text that is not the input lies directly
+    // before and behind it (a continuation that looks like more input), and successive inputs share their address
+    let r = if mode == MODE_PLAIN {
+        EMBED.with(|b| {
+            let mut b = b.borrow_mut();
+            b.clear();
+            b.push_str(EMBED_PREFIX);
+            b.push_str(input);
+            let mut k = input.len().min(48);
+            while !input.is_char_boundary(k) {
+                k -= 1;
+            }
+            b.push_str(&input[..k]);
+            b.push_str(input);
+            b.push('§');
+            let slice = &b[EMBED_PREFIX.len()..EMBED_PREFIX.len() + input.len()];
+            verif_core::util::catch(|| parse(slice, mode, salt))
+        })
+    } else {
+        verif_core::util::catch(|| parse(input, mode, salt))
+    };
     let hooks = verif_core::hooks::drain_log();
     let trace = TRACE.with(|t| std::mem::take(&mut *t.borrow_mut()));
     let ctx_calls = CTX_CALLS.with(|c| std::mem::take(&mut *c.borrow_mut()));
